@@ -145,8 +145,9 @@ class DBConnection:
                 uri += '[%s]' % self.host
             else:
                 uri += self.host
-            if self.port:
-                uri += ':%d' % self.port
+        if self.port:
+            # also without a host (e.g. the unix socket of a second server)
+            uri += ':%d' % self.port
         uri += '/'
         db = self.db
         if db.startswith('/'):
